@@ -228,9 +228,9 @@ fn validate_command_part(command: &str) -> Result<(), CommandErrorKind> {
 
 /// Validate an argument.
 fn validate_argument(argument: &[u8]) -> Result<(), CommandErrorKind> {
-    match argument.iter().position(|&c| c == b'\n') {
+    match argument.iter().position(|&c| c == b'\n' || c == b'\0') {
         None => Ok(()),
-        Some(i) => Err(CommandErrorKind::InvalidCharacter(i, '\n')),
+        Some(i) => Err(CommandErrorKind::InvalidCharacter(i, char::from(argument[i]))),
     }
 }
 
